@@ -115,12 +115,16 @@ func (FrameMonitor) Post(e *Explorer, before, w *World, pre interface{}, ev *Eve
 		}
 		switch x := m.(type) {
 		case *disputetypes.MsgProposeDispute:
-			addBackers(before, allowStake, x.Report.Reporter, x.Report.QueryId, x.Report.BlockNumber)
+			// only a funded dispute has consequences for the disputed reporter and its backers
+			if fundedAfter(before, w, 0, x.Report.Reporter, x.Report.QueryId, x.Report.BlockNumber) {
+				addBackers(before, allowStake, x.Report.Reporter, x.Report.QueryId, x.Report.BlockNumber)
+			}
 			if x.PayFromBond {
 				addSelectorsOf(before, allowStake, x.Creator)
 			}
 		case *disputetypes.MsgAddFeeToDispute:
-			if d, err := before.App.DisputeKeeper.Disputes.Get(before.Ctx, x.DisputeId); err == nil {
+			if d, err := before.App.DisputeKeeper.Disputes.Get(before.Ctx, x.DisputeId); err == nil &&
+				fundedAfter(before, w, x.DisputeId, d.InitialEvidence.Reporter, d.InitialEvidence.QueryId, d.InitialEvidence.BlockNumber) {
 				addBackers(before, allowStake, d.InitialEvidence.Reporter, d.InitialEvidence.QueryId, d.InitialEvidence.BlockNumber)
 			}
 			if x.PayFromBond {
@@ -168,6 +172,41 @@ func (FrameMonitor) Post(e *Explorer, before, w *World, pre interface{}, ev *Eve
 		}
 	}
 	e.RC.Count("frame_checked_txs", 1)
+}
+
+// requiredFee is the fee that funds a dispute: the category share (1%/5%/100%) of the disputed report's power.
+func requiredFee(d disputetypes.Dispute) math.Int {
+	stake := math.NewInt(int64(d.InitialEvidence.Power)).MulRaw(TRB)
+	switch d.DisputeCategory {
+	case disputetypes.Warning:
+		return stake.QuoRaw(100)
+	case disputetypes.Minor:
+		return stake.QuoRaw(20)
+	}
+	return stake
+}
+
+// fundedAfter reports whether, after the transaction, a dispute on that report (the given id, or any dispute
+// that the transaction created or paid into) has received its full fee.
+func fundedAfter(before, after *World, id uint64, reporter string, queryId []byte, height uint64) bool {
+	for _, d := range after.Disputes() {
+		if id != 0 && d.DisputeId != id {
+			continue
+		}
+		ev := d.InitialEvidence
+		if ev.Reporter != reporter || !bytes.Equal(ev.QueryId, queryId) || ev.BlockNumber != height {
+			continue
+		}
+		if id == 0 {
+			if od, err := before.App.DisputeKeeper.Disputes.Get(before.Ctx, d.DisputeId); err == nil && od.FeeTotal.Equal(d.FeeTotal) {
+				continue // untouched by this transaction
+			}
+		}
+		if d.FeeTotal.GTE(requiredFee(d)) {
+			return true
+		}
+	}
+	return false
 }
 
 func addBackers(w *World, set map[string]bool, reporter string, queryId []byte, height uint64) {
